@@ -7,6 +7,7 @@ replace github.com/oneconcern/datamon => /repo
 replace github.com/spf13/pflag => github.com/fredbi/pflag v1.0.6-0.20201106154427-e6824c13371a
 
 require (
+	github.com/blang/semver v3.5.1+incompatible
 	github.com/jacobsa/fuse v0.0.0-20220531202254-21122235c77a
 	github.com/minio/blake2b-simd v0.0.0-20160723061019-3f5f724cb5b1
 	github.com/oneconcern/datamon v0.0.0
@@ -19,7 +20,6 @@ require (
 require (
 	github.com/DataDog/zstd v1.5.2 // indirect
 	github.com/beorn7/perks v1.0.1 // indirect
-	github.com/blang/semver v3.5.1+incompatible // indirect
 	github.com/cenkalti/backoff/v4 v4.2.0 // indirect
 	github.com/cespare/xxhash v1.1.0 // indirect
 	github.com/cespare/xxhash/v2 v2.2.0 // indirect
